@@ -111,6 +111,10 @@ impl Check for C11 {
         if cx.index >= LANE_BASE {
             return crate::realcases::c11_case(cx);
         }
+        // every 8th case also: the replication fetcher's admission and order (range and full-node bound both in force)
+        if cx.index % 8 == 3 {
+            fetcher_case(cx);
+        }
         // ---- (1) pairs
         let mut pairs: Vec<(NetworkAddress, NetworkAddress, &'static str)> = vec![];
         for _ in 0..40 {
@@ -373,4 +377,93 @@ fn driver_case(cx: &mut Cx) {
     store_checks(cx, &mut sim, "after-restart");
     drop(sim);
     let _ = std::fs::remove_dir_all(&root);
+}
+
+
+/// The fetcher's range / full-node filter and its closest-first order, against the reference metric: one multi-key
+/// advertisement of 40-90 keys, a responsible range at the distance of the j-th closest key and (half of the cases) a
+/// full-node bound at the m-th closest (m > j or m < j); everything the fetcher then hands out, batch by batch, is collected.
+fn fetcher_case(cx: &mut Cx) {
+    use ant_networking::verif::VerifFetcher;
+    use ant_protocol::storage::RecordType;
+    use crate::refmetric::{ref_distance, to_u256, D32};
+    let rt = tokio::runtime::Builder::new_current_thread().enable_all().build().expect("rt");
+    let _g = rt.enter();
+    let me = PeerId::random();
+    let holder = PeerId::random();
+    let n = cx.rng.gen_range(40..=90usize);
+    let keys: Vec<RecordKey> = (0..n).map(|_| RecordKey::from(gen::bytes(&mut cx.rng, 32))).collect();
+    let dist: Vec<D32> = keys.iter().map(|k| ref_distance(&me.to_bytes(), k.as_ref())).collect();
+    let mut order: Vec<usize> = (0..n).collect();
+    order.sort_by_key(|i| dist[*i]);
+    let j = cx.rng.gen_range(3..n - 3);
+    let range = dist[order[j]];
+    let full_at: Option<usize> = if cx.rng.gen_bool(0.5) { Some(cx.rng.gen_range(2..n - 1)) } else { None };
+    let (mut f, _rx) = VerifFetcher::new(me);
+    // the order of the two settings is free
+    if cx.rng.gen_bool(0.5) {
+        if let Some(m) = full_at {
+            f.set_farthest_on_full(Some(keys[order[m]].clone()));
+        }
+        f.set_replication_distance_range(to_u256(&range));
+    } else {
+        f.set_replication_distance_range(to_u256(&range));
+        if let Some(m) = full_at {
+            f.set_farthest_on_full(Some(keys[order[m]].clone()));
+        }
+    }
+    let incoming: Vec<(NetworkAddress, RecordType)> = keys.iter().map(|k| (NetworkAddress::from_record_key(k), RecordType::Chunk)).collect();
+    // half of the cases: another node's fetcher in the same process hears the same advertisement first
+    let _neighbour = if cx.rng.gen_bool(0.5) {
+        let (mut nb, nrx) = VerifFetcher::new(PeerId::random());
+        let _ = nb.add_keys(holder, incoming.clone(), &std::collections::HashMap::new());
+        let _ = nb.next_keys_to_fetch();
+        cx.count("fetcher-admission-cases-after-a-neighbour-fetcher");
+        Some((nb, nrx))
+    } else {
+        None
+    };
+    let mut batches: Vec<Vec<RecordKey>> = vec![];
+    let first: Vec<RecordKey> = f.add_keys(holder, incoming, &std::collections::HashMap::new()).into_iter().map(|(_, k)| k).collect();
+    batches.push(first);
+    for _ in 0..40 {
+        let last = batches.last().cloned().unwrap_or_default();
+        if last.is_empty() {
+            break;
+        }
+        // what was handed out arrives, which frees the slots
+        // (every arrival makes the fetcher hand out what fits into the freed slot)
+        let mut next: Vec<RecordKey> = vec![];
+        for k in &last {
+            next.extend(f.notify_about_new_put(k.clone(), RecordType::Chunk).into_iter().map(|(_, k)| k));
+        }
+        next.extend(f.next_keys_to_fetch().into_iter().map(|(_, k)| k));
+        batches.push(next);
+    }
+    cx.eval();
+    cx.count("fetcher-admission-cases");
+    let d_of = |k: &RecordKey| ref_distance(&me.to_bytes(), k.as_ref());
+    let bound_full: Option<D32> = full_at.map(|m| dist[order[m]]);
+    let fetched: std::collections::BTreeSet<Vec<u8>> = batches.iter().flatten().map(|k| k.to_vec()).collect();
+    let w = json!({"keys": n, "range_at_rank": j, "full_node_bound_at_rank": full_at, "batches": batches.iter().map(|b| b.len()).collect::<Vec<_>>()});
+    for (rank, i) in order.iter().enumerate() {
+        let d = dist[*i];
+        let inside = d < range && bound_full.map(|b| d <= b).unwrap_or(true);
+        let outside = d > range || bound_full.map(|b| d > b).unwrap_or(false);
+        let got = fetched.contains(&keys[*i].to_vec());
+        if outside && got {
+            cx.violation("fetcher-admits-key-outside-range-or-beyond-full-node-bound", format!("the key of rank {rank} was fetched although the responsible range ends at rank {j} and the full-node bound is at rank {full_at:?}"), w.clone());
+            break;
+        }
+        if inside && !got {
+            cx.violation("fetcher-drops-key-within-range", format!("the key of rank {rank} (inside the range ending at rank {j}, full-node bound at rank {full_at:?}) was never handed out for fetching"), w.clone());
+            break;
+        }
+    }
+    // closest first: within a batch ascending, and no batch starts closer than the previous one ended
+    let flat: Vec<D32> = batches.iter().flatten().map(|k| d_of(k)).collect();
+    if flat.windows(2).any(|p| p[0] > p[1]) {
+        cx.violation("fetcher-order-not-closest-first", "the keys of one advertisement were not handed out in ascending distance".to_string(), w.clone());
+    }
+    cx.nontrivial(&("fetcher", n, j, full_at));
 }
